@@ -949,15 +949,15 @@ def group_key(c: Case):
 
 def evaluate(rep, vectors, stats, variants_every=3, td7_cap=None):
     """Realise every vector, group, run the real code, compare.  Returns number of cases evaluated."""
-    rng_master = np.random.default_rng([rep.seed, 303])
     groups = {}
-    td7_seen = 0
+    td7_idx = [vi for vi, vec in enumerate(vectors) if vec["kind"] == "td7"]
+    td7_keep = set(td7_idx)
+    if td7_cap is not None and len(td7_idx) > td7_cap:  # evaluated one by one (optimiser step): seeded subset over all batch sizes
+        td7_keep = set(np.random.default_rng([rep.seed, 307]).choice(td7_idx, size=td7_cap, replace=False).tolist())
+        stats["td7_skipped"] += len(td7_idx) - td7_cap
     for vi, vec in enumerate(vectors):
-        if vec["kind"] == "td7":
-            td7_seen += 1
-            if td7_cap is not None and td7_seen > td7_cap:
-                stats["td7_skipped"] += 1
-                continue
+        if vec["kind"] == "td7" and vi not in td7_keep:
+            continue
         fs = (rep.seed, 303, vi)
         cs = make_cases(vec, fs, with_variants=(vi % variants_every == 0))
         for c in cs:
@@ -985,6 +985,7 @@ def evaluate(rep, vectors, stats, variants_every=3, td7_cap=None):
             stats["cases"][c.variant] += 1
             if c.variant == "lattice":
                 stats["per_kind"][kind] = stats["per_kind"].get(kind, 0) + 1
+                stats["nontrivial"] += 1 if nontrivial(c.vec) else 0
                 if not check_lattice(c, r[0], r[1], rep, stats):
                     stats["failed"].add(canon(c.vec))
         by_id = {id(c): r for c, r in zip(cases, res)}
@@ -1094,7 +1095,7 @@ def binding_canary(rep, vectors, failed=frozenset()):
 
 
 def new_stats():
-    return {"cases": {"lattice": 0, "noise": 0, "perturb": 0, "perm": 0}, "per_kind": {}, "ties": 0, "batch1": {}, "td7_skipped": 0, "failed": set()}
+    return {"cases": {"lattice": 0, "noise": 0, "perturb": 0, "perm": 0}, "per_kind": {}, "ties": 0, "batch1": {}, "td7_skipped": 0, "failed": set(), "nontrivial": 0}
 
 
 def run(rep):
@@ -1112,7 +1113,9 @@ def run(rep):
         dict(NSet={2, 4}, NA=3, H=2, LAT="full", num=800 if quick else 6000),
         dict(NSet={1, 3}, NA=2, H=2 if quick else 3, LAT="full" if quick else "small", num=300 if quick else 3000),
     ]
-    if not quick:
+    if quick:  # horizon 3: the cumulative termination mask / n-step discount differ from their one-step forms only for H >= 3
+        sims += [dict(NSet={2, 3}, NA=2, H=3, LAT="small", num=200, Kinds={"enc", "mrq"})]
+    else:
         sims += [dict(NSet={1, 2, 3, 4}, NA=2, H=2, LAT="full", num=6000), dict(NSet={2, 4}, NA=3, H=1, LAT="full", num=1500)]
     # all TLC runs are independent processes: run them side by side
     with ThreadPoolExecutor(max_workers=4 + len(sims)) as pool:
@@ -1127,7 +1130,7 @@ def run(rep):
             f_inv3 = pool.submit(tlc.run, "Losses", tlc.cfg_text(constants=c3, invariants=INVS), workers=workers, tag="losses-inv3", timeout=3000)
         f_sim = []
         for si, s in enumerate(sims):
-            cc = dict(EMIT=True, Kinds=set(ALL_KINDS), NSet=s["NSet"], NA=s["NA"], H=s["H"], LAT=s["LAT"], DEV="")
+            cc = dict(EMIT=True, Kinds=s.get("Kinds", set(ALL_KINDS)), NSet=s["NSet"], NA=s["NA"], H=s["H"], LAT=s["LAT"], DEV="")
             f_sim.append(pool.submit(tlc.run, "Losses", tlc.cfg_text(constants=cc, invariants=INVS), workers=1, simulate=f"num={s['num']}", depth=12,
                                      seed=rep.seed * 7 + si + 1, tag=f"losses-sim{si}", timeout=1500))
         _lazy()  # import jax / flax while TLC is running
@@ -1168,7 +1171,7 @@ def run(rep):
     tm["binding_canary"] = round(time.time() - t0, 1)
     rep.extra["cumulative_wall_s"] = tm
 
-    nt = sum(1 for v in uniq if nontrivial(v))
+    nt = stats["nontrivial"]
     rep.traces = stats["cases"]["lattice"]
     rep.evaluations = total
     rep.distinct = nt
